@@ -54,6 +54,27 @@ Proof.
   - intros x Hx. rewrite heap_push_In. intros [E | E]; [subst; exact (Hnr Hx) | exact (Hd x (or_intror Hx) E)].
 Qed.
 
+Lemma NoDup_snoc {A} (l : list A) x : NoDup l -> ~ In x l -> NoDup (l ++ [x]).
+Proof.
+  intros Hl Hx. apply (Permutation_NoDup (Permutation_cons_append l x)). constructor; assumption.
+Qed.
+
+Lemma NoDup_app_intro {A} (l1 l2 : list A) :
+  NoDup l1 -> NoDup l2 -> (forall x, In x l1 -> In x l2 -> False) -> NoDup (l1 ++ l2).
+Proof.
+  induction l1 as [|a l1 IH]; intros H1 H2 Hd; cbn [app]; [exact H2|].
+  inversion H1 as [|? ? Ha H1']. subst. constructor.
+  - intros Hin. apply in_app_or in Hin. destruct Hin as [Hin | Hin]; [exact (Ha Hin) | exact (Hd a (or_introl eq_refl) Hin)].
+  - apply IH; [exact H1' | exact H2 | intros x Hx1 Hx2; exact (Hd x (or_intror Hx1) Hx2)].
+Qed.
+
+Lemma NoDup_app_left {A} (l1 l2 : list A) : NoDup (l1 ++ l2) -> NoDup l1.
+Proof.
+  induction l1 as [|a l1 IH]; intros H; [constructor|]. cbn [app] in H. inversion H as [|? ? Ha H']. subst. constructor.
+  - intros Hin. apply Ha. apply in_or_app. left. exact Hin.
+  - apply IH. exact H'.
+Qed.
+
 Lemma zrange_from_NoDup n : forall s, NoDup (zrange_from s n).
 Proof.
   induction n as [|n IH]; intros s; cbn [zrange_from]; constructor.
@@ -141,24 +162,27 @@ Section Closures.
         { destruct W. constructor; try assumption.
           - rewrite map_app. cbn [map]. unfold cnum at 2, casted_of. rewrite Ek. rewrite w_rel0. reflexivity.
           - destruct w_cls0 as [Hn Hi]. split.
-            + apply NoDup_app_remove_l with (l := []). cbn. apply (Permutation_NoDup (l := c :: cls)).
-              * apply Permutation_cons_append.
-              * constructor; assumption.
+            + apply NoDup_snoc; assumption.
             + intros x Hx. apply in_app_or in Hx. destruct Hx as [Hx | [<- | []]]; [apply Hi; exact Hx | exact Hopen]. }
         destruct (IH casted heap (rel ++ [k]) asg (cls ++ [c]) casted' heap' rel' W1 Hnd') as [asg' [cls' [W' [Hsame [Hperm [Ha [Hc [Hia Hic]]]]]]]].
-        * intros c0 H0. destruct (Hcl' c0 H0) as [A [B C]]. repeat split; try assumption.
+        * intros c0 H0. destruct (Hcl' c0 H0) as [A [B C]]. split; [exact A|]. split; [exact B|].
           intros Hx. apply in_app_or in Hx. destruct Hx as [Hx | [<- | []]]; [exact (C Hx) | exact (Hc_notin H0)].
         * exact Hos.
         * exact Hrun.
-        * exists asg', cls'. repeat split; try assumption.
-          -- eapply Permutation_trans; [exact Hperm|]. cbn [map snd].
-             apply Permutation_app_head. rewrite <- app_assoc. apply Permutation_app_head. cbn [app].
-             apply Permutation_refl.
-          -- intros x Hx. destruct (Ha x Hx) as [A | [A B]]; [left; exact A | right; split; [right; exact A | exact B]].
-          -- intros x Hx. destruct (Hc x Hx) as [A | [A B]].
-             ++ apply in_app_or in A. destruct A as [A | [<- | []]]; [left; exact A | right; split; [left; reflexivity | exact Hopen]].
-             ++ right. split; [right; exact A | exact B].
-          -- intros x Hx. apply Hic. apply in_or_app. left. exact Hx.
+        * exists asg', cls'.
+          split; [exact W'|]. split; [exact Hsame|].
+          split.
+          { eapply Permutation_trans; [exact Hperm|]. cbn [map snd].
+            apply Permutation_app_head. rewrite <- app_assoc. apply Permutation_app_head. cbn [app].
+            apply Permutation_refl. }
+          split.
+          { intros x Hx. destruct (Ha x Hx) as [A | [A B]]; [left; exact A | right; split; [right; exact A | exact B]]. }
+          split.
+          { intros x Hx. destruct (Hc x Hx) as [A | [A B]].
+            - apply in_app_or in A. destruct A as [A | [<- | []]]; [left; exact A | right; split; [left; reflexivity | exact Hopen]].
+            - right. split; [right; exact A | exact B]. }
+          split; [exact Hia|].
+          intros x Hx. apply Hic. apply in_or_app. left. exact Hx.
       + (* a new cycle: it takes the smallest free number *)
         destruct heap as [|k heap1]; [discriminate|].
         assert (Hnew : ~ In c seen).
@@ -179,16 +203,14 @@ Section Closures.
             + destruct (x =? c) eqn:Exc; [|contradiction]. apply Z.eqb_eq in Exc. subst. right. left. reflexivity.
           - rewrite app_assoc. rewrite map_app. cbn [map]. rewrite cnum_app_new by exact Ek.
             rewrite map_cnum_app by exact Hdom1.
-            apply NoDup_app_remove_l with (l := []). cbn [app].
-            apply (Permutation_NoDup (l := k :: map (cnum casted) (open ++ asg))); [apply Permutation_cons_append|].
-            constructor; [|exact w_inj0].
+            apply NoDup_snoc; [exact w_inj0|].
             intros Hin. apply in_map_iff in Hin. destruct Hin as [x [Ex Hx]].
             apply (w_disj0 x Hx). rewrite Ex. left. reflexivity.
           - exact Hh1.
           - intros x Hx. rewrite app_assoc in Hx. apply in_app_or in Hx. destruct Hx as [Hx | [<- | []]].
             + rewrite cnum_app by (apply Hdom1; exact Hx). intros Hin. apply (w_disj0 x Hx). right. exact Hin.
             + rewrite cnum_app_new by exact Ek. exact Hk.
-          - rewrite w_rel0. symmetry. apply map_cnum_app. intros x Hx. apply Hdom1. apply in_or_app. left.
+          - symmetry. apply map_cnum_app. intros x Hx. apply Hdom1. apply in_or_app. left.
             destruct w_cls0 as [_ Hi]. apply Hi. exact Hx.
           - exact w_cls0.
           - intros x Hx. apply w_good_heap0. right. exact Hx.
@@ -196,21 +218,27 @@ Section Closures.
             + inversion Hx. subst. apply (w_good_cast0 x v Ex).
             + destruct (x =? c); [|discriminate]. inversion Hx. subst. apply w_good_heap0. left. reflexivity. }
         destruct (IH (casted ++ [(c, k)]) heap1 rel (asg ++ [c]) cls casted' heap' rel' W1 Hnd') as [asg' [cls' [W' [Hsame [Hperm [Ha [Hc [Hia Hic]]]]]]]].
-        * intros c0 H0. destruct (Hcl' c0 H0) as [A [B C]]. repeat split; try assumption.
+        * intros c0 H0. destruct (Hcl' c0 H0) as [A [B C]]. split; [exact A|]. split; [|exact C].
           intros Hx. apply in_app_or in Hx. destruct Hx as [Hx | [<- | []]]; [exact (B Hx) | exact (Hc_notin H0)].
         * exact Hos.
         * exact Hrun.
-        * exists asg', cls'. repeat split; try assumption.
-          -- intros x Hx. rewrite Hsame.
-             ++ apply cnum_app. exact Hx.
-             ++ rewrite zget_app_last. destruct (zget casted x); [discriminate | contradiction].
-          -- eapply Permutation_trans; [exact Hperm|]. cbn [map snd]. rewrite <- app_assoc. apply Permutation_app_head.
-             cbn [app]. apply Permutation_middle.
-          -- intros x Hx. destruct (Ha x Hx) as [A | [A B]].
-             ++ apply in_app_or in A. destruct A as [A | [<- | []]]; [left; exact A | right; split; [left; reflexivity | exact Hnew]].
-             ++ right. split; [right; exact A | exact B].
-          -- intros x Hx. destruct (Hc x Hx) as [A | [A B]]; [left; exact A | right; split; [right; exact A | exact B]].
-          -- intros x Hx. apply Hia. apply in_or_app. left. exact Hx.
+        * exists asg', cls'.
+          split; [exact W'|].
+          split.
+          { intros x Hx. rewrite Hsame.
+            - apply cnum_app. exact Hx.
+            - rewrite zget_app_last. destruct (zget casted x); [discriminate | contradiction]. }
+          split.
+          { eapply Permutation_trans; [exact Hperm|]. cbn [map snd]. rewrite <- app_assoc. apply Permutation_app_head.
+            cbn [app]. apply Permutation_middle. }
+          split.
+          { intros x Hx. destruct (Ha x Hx) as [A | [A B]].
+            - apply in_app_or in A. destruct A as [A | [<- | []]]; [left; exact A | right; split; [left; reflexivity | exact Hnew]].
+            - right. split; [right; exact A | exact B]. }
+          split.
+          { intros x Hx. destruct (Hc x Hx) as [A | [A B]]; [left; exact A | right; split; [right; exact A | exact B]]. }
+          split; [|exact Hic].
+          intros x Hx. apply Hia. apply in_or_app. left. exact Hx.
   Qed.
 
   (* ---- one atom ---- *)
@@ -259,7 +287,7 @@ Section Closures.
         apply in_app_or in Hin. destruct Hin as [H | H]; [|exact H]. exfalso.
         destruct (Ha c H) as [[] | [_ Hn]]. apply Hn. apply Hos. exact B. }
     assert (Hnd_ac : NoDup (asg ++ cls)) by (apply (Permutation_NoDup (Permutation_sym Hperm)); exact Hnd).
-    assert (Hnd_asg : NoDup asg) by (apply NoDup_app_remove_r in Hnd_ac; exact Hnd_ac).
+    assert (Hnd_asg : NoDup asg) by (apply NoDup_app_left in Hnd_ac; exact Hnd_ac).
     assert (Hnd_op : NoDup (opening seen cs)) by (apply NoDup_filter; exact Hnd).
     assert (Hperm_asg : Permutation asg (opening seen cs)) by (apply NoDup_Permutation; assumption).
     destruct W as [Wdom Wseen Winj Wheap Wdisj Wrel [Wcn Wci] Wgh Wgc].
@@ -327,7 +355,7 @@ Section Closures.
       + intros k Hk. apply push_all_In in Hk. destruct Hk as [Hk | Hk]; [|apply Wgh; exact Hk].
         rewrite Wrel in Hk. apply in_map_iff in Hk. destruct Hk as [c [Ec Hc0]].
         assert (Hd : zget casted' c <> None) by (apply Wdom; apply in_or_app; left; apply Wci; exact Hc0).
-        unfold cnum, casted_of in Ec. destruct (zget casted' c) as [v|] eqn:Ev; [|contradiction]. subst. apply (Wgc c v Ev).
+        unfold cnum, casted_of in Ec. destruct (zget casted' c) as [v|] eqn:Ev; [|contradiction]. rewrite <- Ec. apply (Wgc c v Ev).
       + exact Wgc.
     - unfold open_after. apply NoDup_app_intro; [apply NoDup_filter; exact Hno | exact Hnd_op |].
       intros c H1 H2. apply filter_In in H1. destruct H1 as [Ho _]. unfold opening in H2. apply filter_In in H2.
